@@ -484,6 +484,14 @@ V("C05/lemma/fold", ["C05", "C14"], "hash.vspec", [],
   "over an UNINTERPRETED key function (so for the key tables of every build): changing one square changes the XOR fold by that square's old and new key (induction over the 64 squares); hence delta contract (C05/hash-delta/*) + frame (C03) + 'stored hash == from-scratch hash' before the step imply it after the step",
   assumes=["C05/hash-delta/%s/%s" % (_k, _c) for _s, _k in KINDS + [("null", "Null")] for _c in ("w", "b")] + ["C05/scratch/zobrist-hash"])
 
+for _r, _rn in ((0, "eighth"), (3, "fifth"), (7, "first")):
+    K("C08/cells/rank-row%d/format" % _r, ["C08"], "board::verif_kani_e::c08_fmt_rank_row%d" % _r, ["board::format_cells"],
+      "for all 13^8 contents of the %s rank on an otherwise empty board: format_cells == the canonical FEN board field (reference run-length encoder)" % _rn,
+      bounded="boards whose only non-empty rank is the %s (all 13^8 contents); symbolic row and full boards: thorough tier" % _rn, timeout=2400, mem_gb=24, mem_est=6)
+    K("C08/cells/rank-row%d/parse" % _r, ["C08", "C12"], "board::verif_kani_e::c08_parse_rank_row%d" % _r, ["board::parse_cells"],
+      "for all 13^8 contents of the %s rank on an otherwise empty board: parse_cells of the canonical text returns exactly those cells" % _rn,
+      bounded="boards whose only non-empty rank is the %s" % _rn, timeout=2400, mem_gb=24, mem_est=6)
+
 
 def by_id():
     return {o["id"]: o for o in OBS}
